@@ -1,7 +1,7 @@
 ----------------------------- MODULE FF_Et -----------------------------
-(* thorough instance E (C14): all 25 distance pairs 0..4 x 0..4, 2 size combinations, 3 link sets; all connected graphs on 1..3 residues, 6 trees on 4 *)
+(* thorough instance E (C14): all 25 distance pairs (0..4)^2 x 3 link sets for blocks A2/B3, 6 pairs x 3 link sets for A3/B3; all connected graphs on 1..3 residues, 6 trees on 4 *)
 EXTENDS FFExport
-MCFFs == FFsE({<<2, 3, 1, 2>>, <<3, 3, 2, 3>>}, (0..4) \X (0..4), {1, 2, 3})
+MCFFs == FFsE({<<2, 3, 1, 2>>}, (0..4) \X (0..4), {1, 2, 3}) \o FFsE({<<3, 3, 2, 3>>}, {<<1, 3>>, <<0, 2>>, <<2, 2>>, <<4, 1>>, <<3, 4>>, <<2, 0>>}, {1, 2, 3})
 GrT(n) == IF n <= 3 THEN ConnGraphs(n) ELSE {Chain(4), {<<1, 2>>, <<2, 3>>, <<2, 4>>}, {<<1, 2>>, <<1, 3>>, <<3, 4>>}, {<<1, 2>>, <<1, 3>>, <<1, 4>>},
                                                    {<<1, 3>>, <<2, 3>>, <<3, 4>>}, {<<1, 4>>, <<2, 4>>, <<3, 4>>}}
 MCInputs == InputsE(MCFFs, GrT, 1..4)
